@@ -1,7 +1,7 @@
 import random, sys, re
 sys.path.insert(0, '/verif/coq/wip/path')
 from litmodel import full_eval, real
-src = open('/tmp/c09_le.py').read()
+src = open('/verif/coq/wip/path/c09_le_tests.py').read()
 m = re.search(r"tests = (\[.*?\])\nfor t in tests", src, re.S)
 tests = eval(m.group(1))
 bad = 0
